@@ -521,7 +521,15 @@ theorem addRaw_shape (H : Nat → Id) (cw : Perm → Bool) (keep : Bool) (l : Lo
   · rename_i new hne hnew
     split
     · left; exact ⟨rfl, rfl⟩
-    · left; exact ⟨rfl, rfl⟩
+    · -- the rebuild branch
+      have inv := addInv_treeAdd t.attached new
+      simp only
+      split
+      · left; exact ⟨rfl, rfl⟩
+      · split
+        · left; exact ⟨rfl, rfl⟩
+        · right
+          exact ⟨rfl, rfl, (treeAdd t.attached new).added, inv.att_eq, rfl, rfl⟩
     · simp only
       split
       · left; exact ⟨rfl, rfl⟩
